@@ -258,7 +258,7 @@ func (w *World) checkSessions() {
 			if err == nil {
 				n = len(ents)
 			}
-			if n != perRepo[repo] && !w.tainted[repo] {
+			if n != perRepo[repo] && !w.tainted[repo] && !(w.residueOK[repo] && n > perRepo[repo]) {
 				var names []string
 				for _, e := range ents {
 					names = append(names, e.Name())
